@@ -172,6 +172,14 @@ def diff_tu():
             '  const auto r1 = smooth::diff::dr<1, smooth::diff::Type::Numerical>(vd::UF<3, 3>{}, smooth::wrt(verif_shared(q), verif_shared(a)));\n'
             '  const auto r2 = smooth::diff::dr<2, smooth::diff::Type::Numerical>(vd::UF<3, 3>{}, smooth::wrt(verif_shared(q), verif_shared(a)));\n'
             '  verif_const_end();\n'
+            '  vd::putm(f, std::get<0>(r1)); vd::putm(J, std::get<1>(r1)); vd::putm(H, std::get<2>(r2)); }\n'
+            '// a const argument of DYNAMIC size (Eigen::VectorXd) next to a fixed-size one\n'
+            'extern "C" void diff_shared_dyn(const double*x,const double*y,double*f,double*J,double*H){\n'
+            '  const Eigen::VectorXd a = Eigen::Map<const Eigen::VectorXd>(x, 3); const Eigen::Vector2d b = Eigen::Map<const Eigen::Vector2d>(y);\n'
+            '  verif_const_begin();\n'
+            '  const auto r1 = smooth::diff::dr<1, smooth::diff::Type::Numerical>(vd::UF<5, 2>{}, smooth::wrt(verif_shared(a), verif_shared(b)));\n'
+            '  const auto r2 = smooth::diff::dr<2, smooth::diff::Type::Numerical>(vd::UF<5, 2>{}, smooth::wrt(verif_shared(a), verif_shared(b)));\n'
+            '  verif_const_end();\n'
             '  vd::putm(f, std::get<0>(r1)); vd::putm(J, std::get<1>(r1)); vd::putm(H, std::get<2>(r2)); }\n')
 
 
@@ -197,6 +205,18 @@ def run_diff(tier="quick", seed=0):
             res.paths += 1
             region_record(res, "%s<K,Numerical>(const args)/p%d" % (tag, k), pv)
     guarded(res, tag, go)
+
+    def go_dyn():
+        b2 = [("x", 3, "d"), ("y", 2, "d"), ("f", 2, "d"), ("J", 10, "d"), ("H", 50, "d")]
+        e2 = []
+        for zm in (None, {0}, {0, 1, 2, 3, 4}):
+            e_ = {"x%d" % i: (0.0 if zm and i in zm else rng.choice([-1, 1]) * 10 ** rng.uniform(-1, 1)) for i in range(3)}
+            e_.update({"y%d" % i: (0.0 if zm and (3 + i) in zm else rng.choice([-1, 1]) * 10 ** rng.uniform(-1, 1)) for i in range(2)})
+            e2.append(e_)
+        for k, pv in enumerate(xt.run_concolic("diff_shared_dyn", b2, e2)):
+            res.paths += 1
+            region_record(res, "%s<K,Numerical>(const VectorXd, const Vector2d)/p%d" % (tag, k), pv)
+    guarded(res, tag + "/dynamic", go_dyn)
     return res
 
 
